@@ -412,6 +412,15 @@ func (cl *e2eClient) finish(once bool) string {
 		if cl.hasM {
 			select {
 			case <-cl.marker:
+				// a client that subscribed late may be handed the end marker inside its initial walk, whose
+				// order is the tree's: the walk is complete at the sync marker only
+				select {
+				case <-cl.syncCh:
+				case <-cl.done:
+					status = "err"
+				case <-time.After(e2eDeadline):
+					status = "timeout"
+				}
 			case err := <-cl.done:
 				_ = err
 				status = "err"
